@@ -80,6 +80,9 @@ def present(f, spcnames):
         out['dims'][k] = int(len(f.dimensions[k])) if k in f.dimensions \
             else -1
     names = [k for k in f.variables.keys() if k not in ('TFLAG', 'ETFLAG')]
+    # (order: the requested names first, then whatever else the reader has)
+    names = [k for k in spcnames if k in names] + \
+        [k for k in names if k not in spcnames]
     out['names'] = [str(k) for k in names]
     for k in spcnames:
         if k not in f.variables:
@@ -100,16 +103,75 @@ def present(f, spcnames):
     return out
 
 
+MET = {
+    'one3d': ('PseudoNetCDF.camxfiles.one3d', ['UNKNOWN']),
+    'humidity': ('PseudoNetCDF.camxfiles.humidity', ['HUM']),
+    'vertical_diffusivity': ('PseudoNetCDF.camxfiles.vertical_diffusivity',
+                             ['KV']),
+    'temperature': ('PseudoNetCDF.camxfiles.temperature',
+                    ['SURFTEMP', 'AIRTEMP']),
+    'height_pressure': ('PseudoNetCDF.camxfiles.height_pressure',
+                        ['HGHT', 'PRES']),
+}
+
+
 def readers(fmt):
+    """name -> callable(path, cfg) opening the file with that reader."""
+    import importlib
     if fmt == 'uamiv':
         from PseudoNetCDF.camxfiles.uamiv.Memmap import uamiv as mm
         from PseudoNetCDF.camxfiles.uamiv.Read import uamiv as rd
-        return {'memmap': mm, 'read': rd}
-    raise ValueError(fmt)
+        return {'memmap': lambda p, c, **kw: mm(p, **kw),
+                'read': lambda p, c, **kw: rd(p, **kw)}
+    base, _ = MET[fmt]
+    mm = getattr(importlib.import_module(base + '.Memmap'), fmt)
+    rd = getattr(importlib.import_module(base + '.Read'), fmt)
+    return {'memmap': lambda p, c, **kw: mm(p, rows=c['ny'], cols=c['nx']),
+            'read': lambda p, c, **kw: rd(p, rows=c['ny'], cols=c['nx'])}
 
 
 def spcnames(cfg):
+    if cfg['fmt'] in MET:
+        return list(MET[cfg['fmt']][1])
     return [''.join(x).strip() for x in cfg['spc']]
+
+
+def build_met_file(cfg):
+    import datetime as dtm
+    import PseudoNetCDF as pnc
+    names = spcnames(cfg)
+    nt, nz, ny, nx = cfg['nt'], cfg['nz'], cfg['ny'], cfg['nx']
+    f = pnc.PseudoNetCDFFile()
+    f.createDimension('TSTEP', nt).setunlimited(True)
+    f.createDimension('LAY', nz)
+    f.createDimension('ROW', ny)
+    f.createDimension('COL', nx)
+    f.createDimension('VAR', len(names))
+    f.createDimension('DATE-TIME', 2)
+    t0 = dtm.datetime(cfg['year'], 1, 1) + dtm.timedelta(
+        days=cfg['jjj'] - 1, hours=cfg['hour'])
+    tf = f.createVariable('TFLAG', 'i', ('TSTEP', 'VAR', 'DATE-TIME'))
+    for t in range(nt):
+        b = t0 + dtm.timedelta(hours=t)
+        tf[t, :, 0] = int(b.strftime('%Y%j'))
+        tf[t, :, 1] = b.hour * 10000
+    j = np.arange(1, ny + 1)[:, None]
+    i = np.arange(1, nx + 1)[None, :]
+    for s, name in enumerate(names):
+        surf = (cfg['fmt'] == 'temperature' and name == 'SURFTEMP')
+        dims = ('TSTEP', 'ROW', 'COL') if surf else \
+            ('TSTEP', 'LAY', 'ROW', 'COL')
+        v = f.createVariable(name, 'f', dims)
+        for t in range(nt):
+            if surf:
+                v[t] = ((((s + 1) * 5 + t + 1) * 5 + 0) * 5 + j) * 5 + i
+            else:
+                for k in range(nz):
+                    v[t, k] = ((((s + 1) * 5 + t + 1) * 5 + k + 1) * 5 + j) \
+                        * 5 + i
+        v.units = 'x'
+    f.TSTEP = 10000
+    return f
 
 
 def build_file(cfg):
@@ -117,6 +179,8 @@ def build_file(cfg):
     from the configuration alone (dates by plain calendar arithmetic)."""
     import datetime as dtm
     import PseudoNetCDF as pnc
+    if cfg['fmt'] in MET:
+        return build_met_file(cfg)
     names = spcnames(cfg)
     nt, nz, ny, nx = cfg['nt'], cfg['nz'], cfg['ny'], cfg['nx']
     f = pnc.PseudoNetCDFFile()
@@ -165,8 +229,8 @@ def build_file(cfg):
     return f
 
 
-def _open_present(cls, path, names):
-    f = cls(path)
+def _open_present(cls, path, names, cfg):
+    f = cls(path, cfg)
     return present(f, names)
 
 
@@ -188,22 +252,44 @@ def case_encode_read(arg):
             fo.write(data)
         tr = {'tid': tid, 'kind': 'enc_read', 'cfg': cfg, 'names': names,
               'nbytes': len(data), 'expbytes': item['bytes'], 'reads': []}
+        import signal
+
+        class Hang(Exception):
+            pass
+
+        def onalarm(sig, frm):
+            raise Hang()
+        oldh = signal.signal(signal.SIGALRM, onalarm)
         for rname, cls in readers(cfg['fmt']).items():
             r = {'reader': rname, 'res': 'ok', 'exc': ''}
+            signal.setitimer(signal.ITIMER_REAL, 10.0)
             try:
-                r['got'] = _open_present(cls, path, names)
+                r['got'] = _open_present(cls, path, names, cfg)
+            except Hang:
+                r['res'] = 'hang'
+                r['exc'] = 'did not terminate within 10 s'
+                r['got'] = {'dims': {}, 'names': [], 'data': [],
+                            'dataok': False, 'tflag': [], 'etflag': []}
             except Exception as ex:
                 r['res'] = 'raised'
                 r['exc'] = '%s: %s' % (type(ex).__name__, str(ex)[:80])
                 r['got'] = {'dims': {}, 'names': [], 'data': [],
                             'dataok': False, 'tflag': [], 'etflag': []}
+            finally:
+                try:
+                    signal.setitimer(signal.ITIMER_REAL, 0)
+                except Hang:
+                    signal.setitimer(signal.ITIMER_REAL, 0)
             tr['reads'].append(r)
-        try:
-            import PseudoNetCDF as pnc
-            a = pnc.pncopen(path)
-            tr['autocls'] = type(a).__name__
-        except Exception as ex:
-            tr['autocls'] = 'raised:' + type(ex).__name__
+        signal.signal(signal.SIGALRM, oldh)
+        tr['autocls'] = ''
+        if cfg['fmt'] == 'uamiv':      # the self-describing format
+            try:
+                import PseudoNetCDF as pnc
+                a = pnc.pncopen(path)
+                tr['autocls'] = type(a).__name__
+            except Exception as ex:
+                tr['autocls'] = 'raised:' + type(ex).__name__
         return tr
     finally:
         shutil.rmtree(tmp, ignore_errors=True)
@@ -241,7 +327,7 @@ def case_write_walk(arg):
         tr['records'], tr['tail'] = walk(data)
         try:
             cls = readers(cfg['fmt'])['memmap']
-            g = cls(p1)
+            g = cls(p1, cfg)
             tr['got'] = present(g, names)
             p2 = os.path.join(tmp, 'w2.' + cfg['fmt'])
             o = pncgen(g, p2, format=cfg['fmt'], verbose=0)
@@ -289,7 +375,7 @@ def case_cuts(arg):
                  'tflag': []}
             signal.setitimer(signal.ITIMER_REAL, 15.0)
             try:
-                g = cls(path)
+                g = cls(path, cfg)
                 p = present(g, names)
                 o['k'] = 'Steps'
                 o['steps'] = p['dims'].get('TSTEP', -1)
@@ -350,7 +436,7 @@ def case_bigcuts(arg):
                      'samples': []}
                 signal.setitimer(signal.ITIMER_REAL, 60.0)
                 try:
-                    g = cls(path, mode=mode)
+                    g = cls(path, cfg, mode=mode)
                     o['k'] = 'Steps'
                     o['steps'] = int(len(g.dimensions['TSTEP']))
                     for t in sorted(set([0, o['steps'] - 1])):
